@@ -22,7 +22,8 @@ TECHNIQUE = "exhaustive history-tree exploration (all operation sequences up to 
 RULE = ("for every stream class (QCow2, QCow2 snapshot view, VMDK sparse / flat / multi-extent, VHDX, VHD fixed + dynamic, "
         "VDI, HDS, Parallels StorageStream) over a small image whose size is not a buffer multiple: every sequence of "
         "operations of depth <= d over the alphabet {seek SET/CUR/END, read, readinto, peek, readoffset, tell, read_sectors} "
-        "on one instance, every sequence of depth <= d-1 over the alphabet addressed to two instances over different images, "
+        "on one instance, every sequence of depth <= d-1 over the alphabet addressed to two instances over different images "
+        "(of the same class, and of two different classes of one format family), "
         "the suffix trees after cache sweeps, and depth <= 2 over every kind of binary file object a caller may supply {file, "
         "unbuffered file, gzip / bz2 / lzma reader, BufferedReader with a 16-byte buffer}; each step compared with the model. non-trivial = sequence with >= 2 "
         "data-returning operations (a later result could depend on an earlier one)")
@@ -42,6 +43,8 @@ EXPECT_OUTCOMES = ["ok"]
 CLASSES = ["qcow2", "qcow2-snapshot", "qcow2-backing", "vmdk-sparse", "vmdk-flat", "vmdk-multi", "vhdx", "vhdx-diff",
            "vhd-fixed", "vhd-dynamic", "vdi", "vdi-child", "hds", "hds-child", "hdd-storage"]
 SWEEPS = ["qcow2", "vmdk-sparse", "vhd-dynamic", "vhdx"]
+FAMILIES = [["qcow2", "qcow2-snapshot", "qcow2-backing"], ["vmdk-sparse", "vmdk-flat", "vmdk-multi"], ["vhd-fixed", "vhd-dynamic"],
+            ["vdi", "vdi-child"], ["hds", "hds-child", "hdd-storage"], ["vhdx", "vhdx-diff"]]
 # classes whose images are handed over as file objects (the others are opened by path by the library itself)
 HANDLE_CLASSES = ["qcow2", "qcow2-snapshot", "qcow2-backing", "vmdk-sparse", "vmdk-flat", "vhd-fixed", "vhd-dynamic", "vdi",
                   "vdi-child", "hds", "hds-child"]
@@ -64,6 +67,11 @@ def shards(tier):
             if not q:
                 for i in range(32):
                     out.append({"buf": buf, "kind": "single", "cls": cls, "depth": 4, "slice": [i, 32], "lean": True})
+    # two live objects of different classes of one family (they share module-level code and, within a family, helper classes)
+    for buf in bufs[:2]:
+        for fam in FAMILIES:
+            for a, b in itertools.combinations(fam, 2):
+                out.append({"buf": buf, "kind": "xpair", "cls": a, "cls2": b, "depth": 2 if q else 3})
     for buf in ([8192] if q else [512, 8192]):
         for cls in CLASSES:
             if cls in HANDLE_CLASSES:
@@ -544,6 +552,15 @@ def run_shard(shard, ctx):
             if len({o[0] for o in seq}) < 2:
                 continue  # single-instance sequences are covered by the single tree
             run_case({"kind": "pair", "cls": cls, "ops": [list(o) for o in seq]}, ctx)
+    elif kind == "xpair":
+        ims = [_image(cls, 0, buf), _image(shard["cls2"], 1, buf)]
+        ops = []
+        for idx in (0, 1):
+            ops += [(idx,) + o for o in alphabet(ims[idx]["disk"].size, buf, ims[idx]["unit"], ims[idx]["sectors"], True)]
+        for seq in itertools.product(ops, repeat=shard["depth"]):
+            if len({o[0] for o in seq}) < 2:
+                continue
+            run_case({"kind": "pair", "cls": cls, "cls2": shard["cls2"], "ops": [list(o) for o in seq]}, ctx)
     elif kind == "handles":
         im = _image(cls, 0, buf)
         ops = alphabet(im["disk"].size, buf, im["unit"], im["sectors"], True)
@@ -591,7 +608,7 @@ def _run_ops(case, ctx, buf, kind, cls, ops):
             if not im.get("big"):
                 im["disk"].materialize()
         else:
-            ims = [_image(cls, 0, buf), _image(cls, 1, buf)]
+            ims = [_image(cls, 0, buf), _image(case.get("cls2", cls), 1, buf)]
             made = [im["make"]() for im in ims]
             streams = [m[0] for m in made]
             readers = [m[1] for m in made]
